@@ -586,7 +586,10 @@ impl AssemblyCode {
                                 }
                             }
                             accumulator = Some(inst.dasm_operand.clone());
-                            flags = FlagsState::A;
+                            // A load that is removed sets no flag: what was known of them stays
+                            if !remove_second {
+                                flags = FlagsState::A;
+                            }
                         }
                         AsmMnemonic::LDX => {
                             if let Some(v) = &accumulator {
